@@ -329,11 +329,11 @@ def layout(t, rng: random.Random, handwritten=0.2, multiline=None, comments=True
 
     if k == "int":
         if hw and not isinstance(p, bool):
-            return rng.choice([f"{p - 1}+1", f"int({str(p)!r})", f"({p})", f"{p}+0", f"-{-p}" if p > 0 else f"{p}"])
+            return rng.choice([f"{p - 1}+1", f"int({str(p)!r})", f"({p})", f"{p}+0", f"-{-p}" if p > 0 else f"{p}", f"(\n{p}\n)", f"(  # c\n    {p})", f"({p}\n)"])
         return repr(p)
     if k == "str":
         if hw:
-            return rng.choice([f"''.join([{p!r}])", f"({p!r})", f"str({p!r})"])
+            return rng.choice([f"''.join([{p!r}])", f"({p!r})", f"str({p!r})", f"(\n{p!r}\n)"])
         return _str_variants(p, rng)
     if k == "bytes":
         if hw:
